@@ -9,13 +9,17 @@ from e2 import conj, disj
 from mirsym import Exec, State, Opq, Agg, Ref, StrC, Seq, Val, Unsupported, FnItem
 
 LEVEL = "model_checking"
-EXPLANATION = ("Every function of the generator whose MIR reads State::annotate is executed symbolically with all inputs "
-               "free; the run with annotate=true is compared with the run with annotate=false on the same inputs "
-               "(2-safety by substitution): z3 must show that everything except annotation slots - the Result "
-               "discriminant, every non-`ty` field of the constructed Core node, and the sequence and arguments of all "
-               "recursive conversions and State setters - is identical.")
+EXPLANATION = ("Every function of the generator whose MIR reads State::annotate (enumerated from the MIR on every run), plus "
+               "convert_class, is executed symbolically with all inputs free; the run with annotate=true is compared with "
+               "the run with annotate=false on the same inputs (2-safety by substitution): z3 must show that everything "
+               "except annotation slots - the Result discriminant, every non-`ty` field of the constructed Core node, the "
+               "sequence and arguments of all recursive conversions and State setters, and the imports a converter "
+               "registers directly (NewType, ABC, abstractmethod, math) - is identical. Second channel: the annotation "
+               "slots of Core are only read by the printer, derived impls and `init`, and `init` (self-composition over the "
+               "slot) neither branches on nor copies the slot.")
 
 DEF_RS = "src/generate/convert/definition.rs"
+CLASS_RS = "src/generate/convert/class.rs"
 STATE_RS = "src/generate/convert/state.rs"
 SETTERS = r"generate::convert::state::State::(in_tup|tuple_literal|expand_ty|is_last_must_be_ret|def_as_fun_arg|must_assign_to|remove_ret|in_interface)$"
 ANNOT_CALLEES = re.compile(r"(ToPy::to_py|\.ToPy::|::to_py$)")
@@ -41,6 +45,12 @@ PROGRAMS = [
     ("fun-default-str", "def f(x: Int, y: Str := \"a\") -> Str => y\nprint(f(1))"),
     ("fun-early-return", "def g() -> Int =>\n    if True then\n        return 1\n    2\nprint(g())"),
     ("var-without-value", "def x: Int\nx := 5"),
+    ("type-alias", "class Account(def balance: Int)\ntype Funded: Account when self.balance > 0\ndef mine := Account(10)\nprint(mine.balance)"),
+    ("type-alias-plain", "type Meters: Int\ndef f(x: Int) -> Int => x\nprint(f(1))"),
+    ("interface", "type Shape\n    def area(self) -> Int\nclass Sq(def s: Int): Shape\n    def area(self) -> Int => self.s * self.s\nprint(Sq(2).area())"),
+    ("class-init-with-return-type", "class Base(def name: Str)\nclass Counter: Base(\"counter\")\n    def count: Int := 0\n    def __init__(self, start: Int) -> None =>\n        self.count := start + 1\n        return None\ndef c := Counter(41)\nprint(c.count)"),
+    ("class-init-plain", "class Base(def name: Str)\nclass Counter: Base(\"counter\")\n    def count: Int := 0\n    def __init__(self, start: Int) =>\n        self.count := start + 1\ndef c := Counter(41)\nprint(c.count)"),
+    ("sqrt", "from math import sqrt\ndef x: Float := 2.0\nprint(x)"),
 ]
 
 
@@ -62,9 +72,18 @@ def erase(py):
                 a.annotation = None
             return n
 
+    t = E().visit(t)
+    used = {n.id for n in ast.walk(t) if isinstance(n, ast.Name)}
+
+    class I(ast.NodeTransformer):
+        # typing names only used by annotations disappear with them; typing names the remaining code uses
+        # (NewType, ...) are part of the program
         def visit_ImportFrom(self, n):
-            return None if n.module == "typing" else n
-    return ast.dump(E().visit(t))
+            if n.module != "typing":
+                return n
+            n.names = [a for a in n.names if (a.asname or a.name) in used]
+            return n if n.names else None
+    return ast.dump(I().visit(t))
 
 
 def program_family(rp):
@@ -160,42 +179,23 @@ def observable(ex, p):
     for ev in p.events:
         # control-relevant calls: the recursive conversions with all their arguments (State modulo annotate)
         if ev["name"] in ("convert_node", "convert_vec", "convert_def", "convert_class", "convert_cntrl_flow",
-                          "append_ret", "append_assign"):
+                          "append_ret", "append_assign", "extract_class", "convert_builder", "convert_call",
+                          "convert_handle", "convert_range_slice"):
             parts.append((ev["name"], tuple(z3.simplify(a).sexpr() for a in ev["argvals"])))
+        # imports registered directly by a converter (not through Name::to_py) serve emitted code, not annotations
+        if ev["name"].split("::")[-1] in ("add_from_import", "add_import"):
+            parts.append((ev["name"], tuple(z3.simplify(a).sexpr() for a in ev["argvals"][1:])))
     return repr(parts)
 
 
-def run(run):
-    mir = e2.load_mir(run)
-    rp = common.Replay()
-    run.assume("inductive hypothesis: recursive conversions (convert_node/convert_vec) are themselves inert, so their results "
-               "are compared with the annotate field of the State argument erased",
-               "Imports is a write-only accumulator (typing imports may differ between the two runs)",
-               "Name::to_py / ToPy callees only return an annotation and add imports (they take no State)",
-               "verdict equality: the flag is not read before generation (checked: the readers are enumerated from the MIR)")
-    run.trusted += ["rustc nightly MIR dump", "mirsym MIR semantics", "z3", "python3 ast (replay comparison)"]
-    sf = re.findall(r"pub (\w+):", re.search(r"pub struct State \{(.*?)\n\}", common.read_repo(STATE_RS), re.S).group(1))
-    if "annotate" not in sf:
-        run.ob("readers", "E2", "State::annotate exists").inconclusive("State has no annotate field any more")
-        rp.close()
-        return
-    idx = sf.index("annotate")
-    readers = readers_of_annotate(mir, idx)
-    ob0 = run.ob("readers", "E2", "the functions that read State::annotate are exactly the ones encoded below", ["(all MIR items)"])
-    known = {"convert_def"}
-    names = sorted(f.name for f in readers)
-    extra = [n for n in names if n.split("::")[-1] not in known and not n.endswith("State as Clone>::clone") and "::clone" not in n and "::fmt" not in n]
-    if extra:
-        ob0.inconclusive(f"new reader(s) of the flag without an obligation: {extra}")
-    else:
-        ob0.discharged(f"readers: {names}", 0, 0)
-    run.samples.append({"obligation": ob0.id, "readers": names})
-
-    ob = run.ob("convert-def-noninterference", "E2", "convert_def with annotate=true and annotate=false on the same inputs: "
-                "same Result discriminant, same non-annotation fields of the Core node, same recursive conversions and "
-                "State setter arguments", ["convert_def", "State setters (inlined)"])
+def noninterference(run, mir, rp, short, file, sf):
+    """2-safety of one generator function (signature (&ASTTy, &mut Imports, &State, &Context) -> GenResult) in the flag."""
+    obid = short.replace("_", "-") + "-noninterference"
+    ob = run.ob(obid, "E2", f"{short} with annotate=true and annotate=false on the same inputs: "
+                "same Result discriminant, same non-annotation fields of the Core node, same recursive conversions, "
+                "State setter arguments and directly registered (non-annotation) imports", [short, "State setters (inlined)"])
     try:
-        fn = e2.find1(mir, file=DEF_RS, name="convert_def")
+        fn = e2.find1(mir, file=file, name=short)
         ex = Exec(mir, max_paths=50000, inline=[SETTERS])
         ex.val_hook = val_hook
         st = State()
@@ -216,8 +216,9 @@ def run(run):
         imp = Ref(ex.new_cell(st, Opq(z3.Const("imp", Val), "Imports")))
         ctx = Ref(ex.new_cell(st, Opq(z3.Const("ctx", Val), "Context")))
         ends = e2.run_kernel(run, ex, fn, [Ref(ex.new_cell(st, astv)), imp, state, ctx], st)
-        if any(p.kind != "return" for p in ends):
-            raise Unsupported(f"unexpected path ends {[p for p in ends if p.kind != 'return'][:2]}")
+        bad_ends = [p for p in ends if p.kind not in ("return", "panic")]
+        if bad_ends:
+            raise Unsupported(f"unexpected path ends {bad_ends[:2]}")
         ids = {}
         idT, idF = z3.IntVal(-1), z3.IntVal(-1)
         T, F = z3.BoolVal(True), z3.BoolVal(False)
@@ -239,7 +240,7 @@ def run(run):
         run.samples.append({"obligation": ob.id, "paths": len(ends), "distinct_observables": len(ids)})
 
         def rp_model(model):
-            r = fam_replay(rp, "convert-def")(model)
+            r = fam_replay(rp, short.replace("_", "-"))(model)
             try:
                 a, b = int(model["observable(annotate=on)"]), int(model["observable(annotate=off)"])
                 r["observable_on"] = obs_of.get(a, "?")[:600]
@@ -252,6 +253,127 @@ def run(run):
         e2.prove(run, ob, ex, [], idT == idF, names_, rp_model)
     except Unsupported as e:
         ob.inconclusive(str(e))
+
+
+NODE_RS = "src/generate/ast/node.rs"
+
+
+def slot_readers(mir_path, slots):
+    """MIR items that mention the annotation slot (variant, index) of a Core value (type Option<Box<Core>>)."""
+    pat = re.compile("|".join(r"as %s\)\.%d: std::option::Option<std::boxed::Box<generate::ast::node::Core>>" % (v, i) for v, i in slots))
+    out, hdr = {}, None
+    with open(mir_path) as f:
+        for line in f:
+            if line.startswith(("fn ", "const ", "static ", "promoted")):
+                hdr = line.strip()
+            elif hdr and pat.search(line):
+                out[hdr] = out.get(hdr, 0) + 1
+    return out
+
+
+def ob_annotation_slots(run, mir, rp):
+    """The annotation slots of Core (the `ty` fields) may only reach the printer: who else reads them?"""
+    lay = e2.rust_enum(NODE_RS, "Core")
+    slots = [(v, lay[v].index("ty")) for v in TY_FIELDS if isinstance(lay.get(v), (list, tuple)) and "ty" in lay[v]]
+    ob0 = run.ob("annotation-slot-readers", "E2", "the `ty` slots of Core::{VarDef,FunArg,FunDef,FunDefOp} are read only by the "
+                 "printer, the derived impls and the kernels encoded below", ["(all MIR items)"])
+    if len(slots) != len(TY_FIELDS):
+        ob0.inconclusive(f"Core layout changed: annotation slots found {slots}")
+        return
+    rd = slot_readers(run.extra["mir_dump"]["path"], slots)
+    allowed = ("::fmt(", "::eq(", "::ne(", "::hash(", "::clone(", "fn to_py(", "fn convert_def(", "fn init(")
+    extra = [h[:160] for h in rd if not any(a in h for a in allowed) and "/generate/ast/node.rs" not in h]
+    run.samples.append({"obligation": ob0.id, "readers": sorted(h[:120] for h in rd)})
+    if not any("fn to_py(" in h for h in rd):
+        ob0.inconclusive("the printer no longer shows up as a reader of the annotation slots: the MIR pattern is stale")
+    elif extra:
+        ob0.inconclusive(f"new reader(s) of an annotation slot without an obligation: {extra}")
+    else:
+        ob0.discharged(f"{len(rd)} MIR items mention an annotation slot; all are printer/derived/encoded", 0, 0)
+
+    ob = run.ob("init-slot-noninterference", "E2", "class.rs `init` (merges a user constructor with parent constructor calls): "
+                "path set and result are independent of the return annotation slot of the user's constructor "
+                "(self-composition over the slot)", ["init"])
+    try:
+        fn = e2.find1(mir, file=CLASS_RS, name="init")
+        ex = Exec(mir, max_paths=20000)
+        st = State()
+        slot = z3.Const("ty_slot", Val)
+        fields = {f: e2.opq("old_init." + f, "?") for f in lay["FunDef"]}
+        fields["ty"] = Opq(slot, "Option<Box<Core>>")
+        fundef = e2.mk_variant(NODE_RS, "Core", "FunDef", fields)
+        is_fundef = z3.Bool("old_init.is_fundef")
+        kinds = ex.enum_variants("Core")
+        other = z3.Int("old_init.other_kind")
+        core = Opq(z3.Const("old_init", Val), "Core",
+                   {("d",): z3.If(is_fundef, z3.IntVal(kinds.index("FunDef")), other), ("v", "FunDef"): fundef})
+        oi, some = e2.sym_option("old_init_opt", Ref(ex.new_cell(st, core)), "Option<&Core>")
+        args = [Ref(ex.new_cell(st, oi)), Ref(ex.new_cell(st, e2.opq("class_args", "[Core]"))),
+                Ref(ex.new_cell(st, e2.opq("parents", "[Core]")))]
+        pre = [z3.Or(is_fundef, z3.And(other >= 0, other < len(kinds), other != kinds.index("FunDef")))]
+        ends = e2.run_kernel(run, ex, fn, args, st, pre)
+        bad_ends = [p for p in ends if p.kind not in ("return", "panic")]
+        if bad_ends:
+            raise Unsupported(f"unexpected path ends {bad_ends[:2]}")
+        A, B = z3.Const("ty_slot.on", Val), z3.Const("ty_slot.off", Val)
+        panic = z3.Const("obs:panic", Val)
+        none = z3.Const("obs:none", Val)
+        RA, RB = none, none
+        for p in ends:
+            c = conj(p.cond)
+            o = panic if p.kind == "panic" else ex.to_val(p.state, p.ret)
+            RA = z3.If(z3.substitute(c, (slot, A)), z3.substitute(o, (slot, A)), RA)
+            RB = z3.If(z3.substitute(c, (slot, B)), z3.substitute(o, (slot, B)), RB)
+        run.samples.append({"obligation": ob.id, "paths": len(ends)})
+        names_ = {"old_init.is_some": some, "old_init.is_fundef": is_fundef,
+                  "slot(on).is_some": ex.discr(st, Opq(A, "Option<Box<Core>>"), "Option"),
+                  "slot(off).is_some": ex.discr(st, Opq(B, "Option<Box<Core>>"), "Option")}
+        e2.prove(run, ob, ex, pre, RA == RB, names_, fam_replay(rp, "init"))
+    except Unsupported as e:
+        ob.inconclusive(str(e))
+
+
+def run(run):
+    mir = e2.load_mir(run)
+    rp = common.Replay()
+    run.assume("inductive hypothesis: recursive conversions (convert_node/convert_vec) are themselves inert, so their results "
+               "are compared with the annotate field of the State argument erased",
+               "Imports is a write-only accumulator (typing imports may differ between the two runs)",
+               "Name::to_py / ToPy callees only return an annotation and add imports (they take no State)",
+               "verdict equality: the flag is not read before generation (checked: the readers are enumerated from the MIR)")
+    run.trusted += ["rustc nightly MIR dump", "mirsym MIR semantics", "z3", "python3 ast (replay comparison)"]
+    sf = re.findall(r"pub (\w+):", re.search(r"pub struct State \{(.*?)\n\}", common.read_repo(STATE_RS), re.S).group(1))
+    if "annotate" not in sf:
+        run.ob("readers", "E2", "State::annotate exists").inconclusive("State has no annotate field any more")
+        rp.close()
+        return
+    idx = sf.index("annotate")
+    readers = readers_of_annotate(mir, idx)
+    ob0 = run.ob("readers", "E2", "the functions that read State::annotate are exactly the ones encoded below", ["(all MIR items)"])
+    std_sig = {}
+    import glob
+    import os
+    for path in sorted(glob.glob(os.path.join(common.REPO, "src/generate/convert/*.rs"))):
+        for m in re.finditer(r"fn (\w+)\(\s*ast: &ASTTy,\s*imp: &mut Imports,\s*state: &State,\s*ctx: &Context,?\s*\) -> GenResult \{",
+                             open(path).read()):
+            std_sig[m.group(1)] = os.path.relpath(path, common.REPO)
+    known = set(std_sig)
+    names = sorted(f.name for f in readers)
+    extra = [n for n in names if n.split("::")[-1] not in known and not n.endswith("State as Clone>::clone") and "::clone" not in n and "::fmt" not in n]
+    if extra:
+        ob0.inconclusive(f"new reader(s) of the flag without an obligation: {extra}")
+    else:
+        ob0.discharged(f"readers: {names}", 0, 0)
+    run.samples.append({"obligation": ob0.id, "readers": names})
+
+    targets = [("convert_def", DEF_RS), ("convert_class", CLASS_RS)]
+    for f in readers:
+        short = f.name.split("::")[-1]
+        if short not in [t[0] for t in targets] and short in std_sig:
+            targets.append((short, std_sig[short]))
+    for short, file in targets:
+        noninterference(run, mir, rp, short, file, sf)
+    ob_annotation_slots(run, mir, rp)
 
     if run.clean():
         n, bad = program_family(rp)
